@@ -1,10 +1,11 @@
 #!/venv/bin/python
 """Run the repository's pinned suite (guard OFF) and compare with /root/.vp/BASELINE.json stable_pass."""
 import json, os, subprocess, sys, tempfile, xml.etree.ElementTree as ET
-env = dict(os.environ); env.pop("PYSIGMA_VERIF", None)
+repo = os.environ.get("VERIF_REPO", "/repo")
+env = dict(os.environ, PYTHONPATH=repo); env.pop("PYSIGMA_VERIF", None)
 fd, xmlp = tempfile.mkstemp(suffix=".xml"); os.close(fd)
 subprocess.run(["/venv/bin/python", "-m", "pytest", "-q", "-p", "no:cacheprovider", "--timeout=900",
-                "--continue-on-collection-errors", f"--junitxml={xmlp}"], cwd="/repo", env=env,
+                "--continue-on-collection-errors", f"--junitxml={xmlp}"], cwd=repo, env=env,
                stdout=subprocess.DEVNULL, stderr=subprocess.DEVNULL)
 passed = set()
 for tc in ET.parse(xmlp).getroot().iter("testcase"):
